@@ -116,6 +116,10 @@ func runMap(seed int64, r *rand.Rand, stay int, replay []uint8, useContainer boo
 	if useContainer {
 		opNames = []string{"get", "insert", "set", "remove", "len", "keys"}
 	}
+	if r.Intn(3) == 0 {
+		// write-heavy variant: inserts, sets and removes dominate
+		opNames = append(opNames, "insert", "remove", "set", "remove", "insert", "remove")
+	}
 	for t := 0; t < ntasks; t++ {
 		n := 1 + r.Intn(6)
 		for i := 0; i < n && total < 40; i++ {
@@ -134,6 +138,20 @@ func runMap(seed int64, r *rand.Rand, stay int, replay []uint8, useContainer boo
 	stubs := map[int64]*fnStub{}
 	for v := int64(1); v < nextVal; v++ {
 		stubs[v] = &fnStub{id: v}
+	}
+	// a sequential past before the concurrent phase: 0..40 insert/remove pairs on scratch keys, so
+	// that internal bookkeeping that depends on the map's history (not on its content) is reached;
+	// the map is empty again afterwards, which is the model's initial state
+	churn := r.Intn(5) * r.Intn(11)
+	for i := 0; i < churn; i++ {
+		k := fmt.Sprintf("past%d", i%3)
+		if useContainer {
+			_ = fc.Add(k, &fnStub{id: -1})
+			fc.Remove(k)
+		} else {
+			mm.Insert(k, int64(-1))
+			mm.Remove(k)
+		}
 	}
 	hist := make([][]porcupine.Operation, ntasks)
 	snapshots := make([][]string, ntasks) // Keys() results kept to detect later mutation (aliasing)
